@@ -218,7 +218,7 @@ unique_ptr<DiscreteDistributionInterface> BppODiscreteDistributionFormat::readDi
     }
     else if (distName == "TruncExponential")
     {
-      rDist.reset(new TruncatedExponentialDiscreteDistribution(nbClasses, 1, 0));
+      rDist.reset(new TruncatedExponentialDiscreteDistribution(nbClasses, 1, 10)); // a truncation point of 0 would be an empty domain
 
       if (args.find("median") != args.end())
         rDist->setMedian(true);
